@@ -134,6 +134,7 @@ Inductive vop :=
 | OIntoStream                   (* From<ByteRegion> for ByteStream *)
 | OGetSlice (o n : nat)         (* get_slice(offset, size) on region or slice *)
 | ORead (k : nat)               (* one Read::read call with a buffer of k bytes *)
+| OReadAll                      (* Read::read_to_end on the (possibly partly consumed) stream *)
 | OSizes.                       (* size() / size(), offset(), size_left() *)
 
 Inductive obs :=
@@ -153,6 +154,7 @@ Definition step (into_stream : region -> stream) (v : view) (op : vop) : view * 
   | VRegion r, OGetSlice o n | VSlice r, OGetSlice o n =>
       if cut_ok r o n then (v, ObsBytes (rbytes (cut r o n))) else (v, ObsBad)
   | VStream s, ORead k => let (out, s') := read s k in (VStream s', ObsBytes out)
+  | VStream s, OReadAll => let (out, s') := read s (size_left s) in (VStream s', ObsBytes out)
   | VRegion r, OSizes | VSlice r, OSizes => (v, ObsSizes (rsize r) 0 (rsize r))
   | VStream s, OSizes => (v, ObsSizes (ssize s) (offset s) (size_left s))
   | _, _ => (v, ObsBad)
@@ -177,6 +179,8 @@ Definition astep (v : aview) (op : vop) : aview * obs :=
   | ASeq _ l, OGetSlice o n => if o + n <=? length l then (v, ObsBytes (sub o n l)) else (v, ObsBad)
   | AStream l pos, ORead k =>
       let n := Nat.min k (length l - pos) in (AStream l (pos + n), ObsBytes (sub pos n l))
+  | AStream l pos, OReadAll =>
+      let n := length l - pos in (AStream l (pos + n), ObsBytes (sub pos n l))
   | ASeq _ l, OSizes => (v, ObsSizes (length l) 0 (length l))
   | AStream l pos, OSizes => (v, ObsSizes (length l) pos (length l - pos))
   | _, _ => (v, ObsBad)
@@ -202,7 +206,7 @@ Lemma step_refines v op : vwf v ->
   let (v', o) := step of_region v op in
   vwf v' /\ astep (abs v) op = (abs v', o).
 Proof.
-  intros W. destruct v as [r|r|s]; destruct op as [o n| | | | |o n|k|]; cbn [step abs astep vwf] in *;
+  intros W. destruct v as [r|r|s]; destruct op as [o n| | | | |o n|k| |]; cbn [step abs astep vwf] in *;
     try (split; [exact W|reflexivity]).
   - unfold cut_ok. rewrite rbytes_length by exact W.
     destruct (Nat.leb_spec (o + n) (rsize r)) as [H|H]; cbn [vwf abs].
@@ -233,6 +237,11 @@ Proof.
     destruct W as [Wr Wc]. rewrite rbytes_length by exact Wr.
     assert (Hsl : rsize (sr s) - offset s = size_left s) by (unfold rsize, offset, size_left in *; lia).
     rewrite Hsl, Hsr, Hoff, Hlen, E. reflexivity.
+  - pose proof (read_spec s (size_left s) W) as P. destruct (read s (size_left s)) as [out s'].
+    destruct P as [E [W' [Hsr [Hoff [Hleft Hlen]]]]]. cbn [vwf abs]. split; [exact W'|].
+    destruct W as [Wr Wc]. rewrite rbytes_length by exact Wr.
+    assert (Hsl : rsize (sr s) - offset s = size_left s) by (unfold rsize, offset, size_left in *; lia).
+    rewrite Hsl, Hsr, Hoff, Hlen, E. rewrite Nat.min_id. reflexivity.
   - split; [exact W|]. destruct W as [Wr Wc]. rewrite rbytes_length by exact Wr.
     unfold ssize. replace (rsize (sr s) - offset s) with (size_left s)
       by (unfold rsize, offset, size_left in *; lia). reflexivity.
